@@ -1924,7 +1924,9 @@ theorem sites_match_model :
     AITB.Gen.C01.peLoopOrder = ["init2tol", "useTolSmall", "while", "save", "discount", "computeQ", "dot", "absmax"] ∧
     AITB.Gen.C01.lpSites = ["objUniform", "minimise", "rowEigen", "rowGeneric", "plusOne", "GE", "assembleQ"] ∧
     AITB.Gen.C01.bellmanInplaceIsMaxCoeffOverActions = true ∧
-    AITB.Gen.C01.computeQSites = ["irGeneric", "qEigen", "qGeneric"] := by decide
+    AITB.Gen.C01.computeQSites = ["irGeneric", "qEigen", "qGeneric"] ∧
+    AITB.Gen.C01.greedySites = ["init", "scanFrom1", "tieGeneral", "greater", "setMax", "reset", "fillFrom0", "tieGeneral2", "recip", "zero"] ∧
+    AITB.Gen.C01.piSites = ["eval", "greedyOfQfun", "matrix0", "label", "evalP", "warm", "qfunGetsQ", "newMatrix", "diffSmall", "moveMatrix", "goto", "ret"] := by decide
 
 /-! ## the hypotheses are satisfiable: a concrete non-trivial MDP (2 states, 2 actions, negative reward, self-loop) -/
 
